@@ -10,6 +10,15 @@ JAR = "/opt/veriftools/tla/tla2tools.jar:/opt/veriftools/tla/CommunityModules-de
 SPEC = os.path.join(os.path.dirname(os.path.dirname(os.path.abspath(__file__))), "spec")
 
 
+def _diag(out):
+    """the part of TLC's output that says what went wrong (not the list of parsed modules)"""
+    for key in ("*** Errors", "Error:", "Exception", "error"):
+        i = out.find(key)
+        if i >= 0:
+            return out[max(0, i - 300):i + 2200]
+    return out[-2500:]
+
+
 class TLCBroken(Exception):
     """TLC could not run or the specification itself is in error (never a verdict about the code)."""
 
@@ -137,7 +146,7 @@ class TraceResult(object):
         self.states = 0
 
 
-def validate_trace(module, cfg, trace_path, workdir, n_events, xmx="4g", timeout=1800, env=None):
+def validate_trace(module, cfg, trace_path, workdir, n_events, xmx="2g", timeout=1800, env=None):
     """Validates the ndjson trace against the trace specification `module`.  The cfg must use
     POSTCONDITION TraceAccepted, which prints DIAMETER.  Returns TraceResult."""
     t0 = time.time()
@@ -170,7 +179,7 @@ def validate_trace(module, cfg, trace_path, workdir, n_events, xmx="4g", timeout
         res.states = int(m[-1][1])
     m = re.search(r'"MAXL"[^0-9]*(\d+)', out)
     if m is None:
-        raise TLCBroken("trace validation produced no verdict (%s):\n%s" % (module, out[-3000:]))
+        raise TLCBroken("trace validation produced no verdict (%s, exit %s):\n%s" % (module, r.returncode, _diag(out)))
     res.matched = int(m.group(1)) - 1
     res.accepted = res.matched >= n_events
     if not res.accepted and "Parsing or semantic analysis failed" in out:
